@@ -28,6 +28,11 @@ fn main() {
     let out = std::io::stdout();
     let mut out = out.lock();
     match cmd {
+        "k3probe" => {
+            for f in sched::k3_probe(arg(&args, 2, 0u32)) {
+                writeln!(out, "K3PROBE {}", f).unwrap();
+            }
+        }
         "labels" => {
             let o = labels::run(arg(&args, 2, 1u64), arg(&args, 3, 0u32));
             out.write_all(o.lines.as_bytes()).unwrap();
